@@ -281,5 +281,6 @@ pub fn skeletons(out: &mut String) {
         names.push(name);
     }
     writeln!(out, "def skAll : List Fn := [{}]\n", names.join(", ")).unwrap();
+    writeln!(out, "def skNamed : List (String × Fn) := [{}]\n", names.iter().map(|n| format!("({}, {})", lean_str(n), n)).collect::<Vec<_>>().join(", ")).unwrap();
     writeln!(out, "/-- functions whose template could not be validated on every shape -/\ndef skOpaqueCount : Nat := {}\n\nend Soa.Extracted", n_opaque).unwrap();
 }
